@@ -81,6 +81,7 @@ func (f *Frame) instr(ins ssa.Instruction) {
 	case *ssa.Field:
 		v := f.get(x.X)
 		f.def(x, fmt.Sprintf("(%s %s)", e.S.fieldAccessor(x.X.Type(), x.Field), v.T))
+		e.taintField(x.X.Type(), x.Field, f.vals[x].T)
 	case *ssa.FieldAddr:
 		base := f.get(x.X)
 		pt := x.X.Type().Underlying().(*types.Pointer)
@@ -257,6 +258,9 @@ func (f *Frame) binop(x *ssa.BinOp) {
 			e.decl(n, "Str")
 			e.assert(fmt.Sprintf("(= %s (str_cat %s %s))", n, a, b))
 			e.assert(fmt.Sprintf("(and (= (s_off %s) 0) (= (s_len %s) (+ (s_len %s) (s_len %s))))", n, n, a, b))
+			for _, t := range e.taints() {
+				e.assert(fmt.Sprintf("(=> (and %s %s) %s)", e.taintApp(t, a), e.taintApp(t, b), e.taintApp(t, n)))
+			}
 			if e.con != nil && e.con.StringsExact {
 				e.assert(fmt.Sprintf("(forall ((k Int)) (=> (and (<= 0 k) (< k (s_len %s))) (= (select (s_arr %s) k) (str_at %s k))))", a, n, a))
 				e.assert(fmt.Sprintf("(forall ((k Int)) (=> (and (<= 0 k) (< k (s_len %s))) (= (select (s_arr %s) (+ (s_len %s) k)) (str_at %s k))))", b, n, a, b))
@@ -407,6 +411,11 @@ func (f *Frame) unop(x *ssa.UnOp) {
 		f.def(x, e.load(f.heap, l))
 		e.assumeWF("", f.vals[x].T, x.Type())
 		f.assumeAllocated(f.vals[x].T, x.Type(), 0)
+		if fa, ok := x.X.(*ssa.FieldAddr); ok {
+			if pt, ok := fa.X.Type().Underlying().(*types.Pointer); ok {
+				e.taintField(pt.Elem(), fa.Field, f.vals[x].T)
+			}
+		}
 	case token.ARROW:
 		f.bind(x, f.havocVal(x.Type(), "recv"))
 		f.ghostAt("recv", nil, f.vals[x], true)
@@ -646,6 +655,9 @@ func (f *Frame) slice(x *ssa.Slice) {
 		}
 		f.safety("slice", f.sliceText(x), fmt.Sprintf("(and (<= 0 %s) (<= %s %s) (<= %s (s_len %s)))", lo, lo, hi, hi, v.T), x.Pos())
 		f.def(x, fmt.Sprintf("(mk_str (s_arr %s) (+ (s_off %s) %s) (- %s %s))", v.T, v.T, lo, hi, lo))
+		for _, t := range e.taints() {
+			e.assert(fmt.Sprintf("(=> %s %s)", e.taintApp(t, v.T), e.taintApp(t, f.vals[x].T)))
+		}
 	case *types.Slice:
 		hi := "(sl_len " + v.T + ")"
 		if x.High != nil {
